@@ -28,20 +28,37 @@ Proof. exact narrow_finite_correct. Qed.
 Print Assumptions C05_narrow_is_round_to_nearest_even.
 
 (* where the overflow happens: from 2^128 - 2^103 (the tie between FLT_MAX and 2^128, which is the double
-   0x47effffff0000000) upwards the result is infinity; up to the preceding double (0x47efffffefffffff, adjacent:
-   see C05_examples) it is finite and correctly rounded *)
+   0x47effffff0000000) upwards — and only there — the result is infinity; up to the preceding double (0x47efffffefffffff, proved to be
+   its binary64 predecessor) it is finite and correctly rounded *)
 Theorem C05_overflow_threshold :
+  (* iff: a finite double overflows exactly from the threshold upwards ... *)
+  (forall x : binary64,
+   Binary.is_finite 53 1024 x = true ->
+   (Binary.is_finite 24 128 (narrow x) = false <->
+    (Binary.B2R 53 1024 (b64_of_bits 0x47effffff0000000) <= Rabs (Binary.B2R 53 1024 x))%R)) /\
+  (* ... where the result is the infinity of its sign ... *)
   (forall x : binary64,
    Binary.is_finite 53 1024 x = true ->
    (Binary.B2R 53 1024 (b64_of_bits 0x47effffff0000000) <= Rabs (Binary.B2R 53 1024 x))%R ->
    narrow x = B754_infinity 24 128 (Binary.Bsign 53 1024 x)) /\
+  (* ... below it the result is finite and correctly rounded ... *)
   (forall x : binary64,
    Binary.is_finite 53 1024 x = true ->
    (Rabs (Binary.B2R 53 1024 x) <= Binary.B2R 53 1024 (b64_of_bits 0x47efffffefffffff))%R ->
    Binary.is_finite 24 128 (narrow x) = true /\
    Binary.B2R 24 128 (narrow x) =
-     round radix2 (FLT_exp (-149) 24) ZnearestE (Binary.B2R 53 1024 x)).
-Proof. exact (conj narrow_overflow narrow_no_overflow). Qed.
+     round radix2 (FLT_exp (-149) 24) ZnearestE (Binary.B2R 53 1024 x)) /\
+  (* ... and the two cases are exhaustive: 0x47efffffefffffff is the binary64 predecessor of the threshold
+     (Flocq's pred), so no double lies strictly between them *)
+  (Binary.B2R 53 1024 (b64_of_bits 0x47efffffefffffff) =
+     pred radix2 (FLT_exp (-1074) 53) (Binary.B2R 53 1024 (b64_of_bits 0x47effffff0000000)) /\
+   forall x : binary64,
+     (Rabs (Binary.B2R 53 1024 x) < Binary.B2R 53 1024 (b64_of_bits 0x47effffff0000000))%R ->
+     (Rabs (Binary.B2R 53 1024 x) <= Binary.B2R 53 1024 (b64_of_bits 0x47efffffefffffff))%R).
+Proof.
+  exact (conj narrow_overflow_iff (conj narrow_overflow (conj narrow_no_overflow
+          (conj B2R_thr_lo_is_pred below_thr_hi_le_thr_lo)))).
+Qed.
 Print Assumptions C05_overflow_threshold.
 
 (* classes: signed zeros and infinities are kept, NaN stays NaN and nothing else becomes NaN,
